@@ -20,7 +20,8 @@ def gen(c, binary):
 
 def run(c):
     c.rule = ("case 0: exhaustive grid strategy x shard count (1..12 quick, 1..64 thorough) x by-metric count x fixed keys x "
-              "secondary keys x shard_num x metric ids; case 1: every (second mod 6, alive mask) incl. the uint32 wrap; "
+              "secondary keys x shard_num x metric ids, plus every shard index as fixed key / fixed_shard number under "
+              "by-metric count 1, ns/2, ns-1, ns; case 1: every (second mod 6, alive mask) incl. the uint32 wrap; "
               "other cases: random shard configurations (i%4=0), random 6-second replica windows (i%4=1), and schedules of "
               "clock advances (forward, back, jumps) / run-time ShortWindow changes (+-1, +-2, anywhere in 3..MaxShortWindow, "
               "set the way the remote config sets configR) / sends against a REAL Aggregator (advanceRecentBuckets + "
@@ -73,7 +74,11 @@ META = {
              "is owned by this replica and at most 2 s later, or under its own time in the historic map (filed_in_own_bucket); "
              "filed_general / round_general drop the hypothesis t+2 < 2^32 and state what the code does at the uint32 wrap "
              "(the last two seconds can be filed into bucket 0..2, witness by decide and in the correspondence). "
-             "window_always_contiguous: for ANY sequence of ticks with ANY ShortWindow values (raised or lowered at run time) "
+             "agent_shard_eq_api_shard: for every configuration with by-metric count >= 1 (equal to, below, or far below the "
+             "number of shards) whenever the API (chutil: Sharded(), Shard(byMetric), clamp to the real shard count - pinned as "
+             "source text, gen_api_clamp) reads one specific shard, the agent accepts the metric and writes exactly that shard, "
+             "incl. fixed keys / fixed_shard numbers above the by-metric count; the variant that compares the primary shard "
+             "with the by-metric count (seeded C10-r4-1) is kept as a decide witness. window_always_contiguous: for ANY sequence of ticks with ANY ShortWindow values (raised or lowered at run time) "
              "and any clock values the recent window stays a run of consecutive seconds (advance_window_any is the one-step "
              "form, without the old length assumption). Timestamp independence (shard_ignores_ts): Key.MarshalAppend is modelled byte for byte (op 'key'), the bytes "
              "Key.XXHash hashes are marshal[4:], and for every hash function two keys differing only in the timestamp get "
